@@ -1,6 +1,7 @@
 """C19 WebTransport streams stay attached to their session, bytes intact (structural clauses)."""
 from engine import flow as fl, ru, paths as pa
 from engine.mir import Place
+from rules import shared
 
 EXPLANATION = (
     "Static def-use / path / forwarder analysis over the MIR of h3 and h3-webtransport: (a) every conversion between "
@@ -212,6 +213,7 @@ def run(ctx):
                       "", None, p.describe())
 
     # ------------------------------------------------------------ C19-c bytes behind the header survive
+    shared.bufrecv_poll_data(ctx, "C19-c")
     # the unframed readers hand out what is buffered before they report anything else
     ars = prog.find(r"^<h3::stream::BufRecvStream as (futures_io|tokio)::.*AsyncRead>::poll_read$")
     ctx.floor("C19-c", "AsyncRead impls of BufRecvStream", len(ars), 2)
